@@ -59,6 +59,7 @@ type Server struct {
 type conn struct {
 	c        net.Conn
 	instance int
+	peer     *ownedConn
 }
 
 func NewServer(st *Store) *Server {
@@ -93,11 +94,12 @@ func (d *Dialer) DialContext(ctx context.Context, network, address string) (net.
 		return nil, fmt.Errorf("simmongo: instance %d is down", d.Instance)
 	}
 	a, b := net.Pipe()
-	c := &conn{c: b, instance: d.Instance}
+	oc := &ownedConn{Conn: a}
+	c := &conn{c: b, instance: d.Instance, peer: oc}
 	d.S.conns[c] = true
 	d.S.mu.Unlock()
 	go d.S.serve(c)
-	return a, nil
+	return oc, nil
 }
 
 // KillInstance closes every connection of an orda-server instance and refuses new ones.
@@ -373,7 +375,7 @@ func (s *Server) handle(c *conn, cmd bson.D) (bson.D, bool) {
 	var p *Pending
 	if !auto {
 		s.seq++
-		p = &Pending{Seq: s.seq, Instance: c.instance, DB: db, Name: lname, Coll: collName, Key: canonCmd(cmd), Write: write, Owner: s.curOwner, cmd: cmd, decide: make(chan string)}
+		p = &Pending{Seq: s.seq, Instance: c.instance, DB: db, Name: lname, Coll: collName, Key: canonCmd(cmd), Write: write, Owner: c.peer.lastOwner(), cmd: cmd, decide: make(chan string)}
 		s.pending = append(s.pending, p)
 		if s.OnArrive != nil {
 			s.OnArrive(p)
